@@ -39,7 +39,7 @@ void harness::run_case(const eng::Raw& raw, eng::Ctx& ctx)
 	lim.maxStates = ctx.tier() ? 8 : 6;
 	lim.arity3 = true;
 	gen::TACase c = gen::decode_ta(raw, lim, false);
-	const std::string largeTag = gen::enlarge(c, false);
+	const std::string largeTag = gen::enlarge(c, false, 64);
 	if (!largeTag.empty()) ctx.tag(largeTag);
 	const ref::TA V = tc::lib_view(c.A, c.num);
 	const std::set<int> st = V.states();
